@@ -352,7 +352,13 @@ fn judge_split(text: &str, config: &str, l: &mut Local, case: &Case, stratum: &s
         l.eval(stratum, "rejected", false, 0);
         return;
     };
-    let cfgq = get_sequence_config(config);
+    // "statement" is a hand-built configuration of the documented statement shape (marker 61, closing fields in
+    // sequence C): the library ships no named configuration that reaches that branch
+    let cfgq = if config == "statement" {
+        swift_mt_message::parser::SequenceConfig { sequence_b_marker: "61".into(), sequence_c_fields: ["62", "64", "65", "86"].iter().map(|s| s.to_string()).collect(), has_sequence_c: true }
+    } else {
+        get_sequence_config(config)
+    };
     let Ok(Ok(ps)) = guard(|| split_into_sequences(&map, &cfgq)) else {
         l.eval(stratum, "split-error", true, hash_bytes2(config, text));
         return;
@@ -372,6 +378,48 @@ fn judge_split(text: &str, config: &str, l: &mut Local, case: &Case, stratum: &s
             "field-altered"
         };
         v(l, "split_into_sequences", clause, config, format!("sequences A+B+C hold {} occurrences, the input map holds {} (config {config})", union.len(), want.len()), case);
+    }
+    // placement, as far as the module documents it: what precedes the first sequence-B marker is sequence A, the
+    // first marker itself opens sequence B, a configuration without sequence C fills none, and with the statement
+    // shape the first closing field other than 86 after the start of B opens sequence C for all that follows
+    {
+        let all = flatten(&map);
+        let mk = cfgq.sequence_b_marker.as_str();
+        let is_marker = |t: &str| t == mk || (mk == "23" && t == "25");
+        let first = if mk == "20" && all.iter().filter(|x| x.0 == "20").count() > 1 { all.iter().enumerate().filter(|(_, x)| x.0 == "20").nth(1).map(|x| x.0) } else { all.iter().position(|x| is_marker(&x.0)) };
+        let inside = |m: &Map, x: &(String, String, usize)| m.get(&x.0).map(|v| v.iter().any(|(c, p)| *c == x.1 && *p == x.2)).unwrap_or(false);
+        let always_a = |t: &str| matches!(t, "72" | "77E" | "79");
+        for (i, x) in all.iter().enumerate() {
+            let before = first.map(|f| i < f).unwrap_or(true);
+            if before && !inside(&ps.sequence_a, x) {
+                v(l, "split_into_sequences", "field-before-first-marker-not-in-A", config, format!("field {} precedes the first sequence-B marker {mk} but is not placed in sequence A (config {config})", x.0), case);
+                break;
+            }
+        }
+        if let Some(f) = first
+            && !always_a(&all[f].0)
+            && !inside(&ps.sequence_b, &all[f])
+        {
+            v(l, "split_into_sequences", "first-marker-not-in-B", config, format!("the first marker {mk} does not open sequence B (config {config})"), case);
+        }
+        if !cfgq.has_sequence_c && !ps.sequence_c.is_empty() {
+            v(l, "split_into_sequences", "sequence-C-filled-without-sequence-C", config, format!("config {config} has no sequence C but sequence C holds fields"), case);
+        }
+        if config == "statement"
+            && let Some(f) = first
+            && let Some(cs) = all.iter().enumerate().skip(f).find(|(_, x)| x.0 != "86" && cfgq.sequence_c_fields.iter().any(|c| c.trim_end_matches(char::is_alphabetic) == x.0.trim_end_matches(char::is_alphabetic))).map(|x| x.0)
+        {
+            for (i, x) in all.iter().enumerate().skip(f) {
+                if always_a(&x.0) {
+                    continue;
+                }
+                let want_c = i >= cs;
+                if want_c != inside(&ps.sequence_c, x) {
+                    v(l, "split_into_sequences", if want_c { "closing-field-not-in-C" } else { "statement-line-in-C" }, config, format!("field {} at index {i}: sequence C starts at index {cs} (first closing field other than 86), placement disagrees", x.0), case);
+                    break;
+                }
+            }
+        }
     }
     // repetitive items: partition of everything from the first marker on
     let marker = cfgq.sequence_b_marker.clone();
@@ -554,7 +602,7 @@ pub fn run(cfg: &Config) -> i32 {
                 cases.push(("history".into(), Case::History { text: t.clone(), ops: random_ops(&tags, &mut rr, n) }));
             }
         }
-        for config in ["MT101", "MT104", "MT107", "MT110", "MT204", "MT935", "MT940", "MT942", "MT000"] {
+        for config in ["MT101", "MT104", "MT107", "MT110", "MT204", "MT935", "MT940", "MT942", "MT000", "statement"] {
             cases.push((format!("split/{config}"), Case::Split { text: plain.clone(), config: config.into() }));
         }
     }
